@@ -703,12 +703,18 @@ impl Net {
         let ctx = CmdCtx::new(command, s, 1, false);
         let authed = AtomicBool::new(true);
         let fut = node.handler.handle_cmd_ctx(ctx, r, &authed);
-        match fut.await {
-            Ok(reply) => {
+        // a panic in the handler kills the session task of a real server (the client sees its connection closed) and nothing
+        // else: here it becomes an error reply and an event, not the death of the rig (a tool error would hide the verdict)
+        match futures::FutureExt::catch_unwind(std::panic::AssertUnwindSafe(fut)).await {
+            Ok(Ok(reply)) => {
                 let (_req, pkt, _slow) = reply.into_inner();
                 pkt.to_resp_vec()
             }
-            Err(e) => Resp::Error(format!("COMMAND_ERROR {:?}", e).into_bytes()),
+            Ok(Err(e)) => Resp::Error(format!("COMMAND_ERROR {:?}", e).into_bytes()),
+            Err(_) => {
+                self.event(json!({"kind": "proxy_panic", "proxy": proxy}));
+                Resp::Error(b"PROXY_PANIC connection closed".to_vec())
+            }
         }
     }
 
@@ -722,9 +728,13 @@ impl Net {
         let (s, r) = new_command_pair(&command);
         let ctx = CmdCtx::new(command, s, 1, false);
         let authed = AtomicBool::new(true);
-        match node.handler.handle_cmd_ctx(ctx, r, &authed).await {
-            Ok(reply) => reply.into_inner().1.to_resp_vec(),
-            Err(e) => Resp::Error(format!("COMMAND_ERROR {:?}", e).into_bytes()),
+        match futures::FutureExt::catch_unwind(std::panic::AssertUnwindSafe(node.handler.handle_cmd_ctx(ctx, r, &authed))).await {
+            Ok(Ok(reply)) => reply.into_inner().1.to_resp_vec(),
+            Ok(Err(e)) => Resp::Error(format!("COMMAND_ERROR {:?}", e).into_bytes()),
+            Err(_) => {
+                self.event(json!({"kind": "proxy_panic", "proxy": proxy}));
+                Resp::Error(b"PROXY_PANIC connection closed".to_vec())
+            }
         }
     }
 
